@@ -1,0 +1,13 @@
+//go:build verif
+
+package frugal
+
+import "github.com/apache/thrift/lib/go/thrift"
+
+// Pure re-export for the verification harness (build tag `verif` only).
+
+// VerifSimpleServerAccept runs FSimpleServer.accept, the per-connection
+// request loop, on the given client transport.
+func VerifSimpleServerAccept(p FProcessor, pf *FProtocolFactory, client thrift.TTransport) error {
+	return NewFSimpleServer(p, nil, pf).accept(client)
+}
